@@ -38,7 +38,7 @@ def main():
     if sys.argv[2] == '--batch':
         res = {}
         for item in json.loads(sys.argv[3]):
-            res[item['fn']] = run_one(mod, item['fn'], item['args'], item.get('kwargs', {}))
+            res[item.get('key', item['fn'])] = run_one(mod, item['fn'], item['args'], item.get('kwargs', {}))
         print(json.dumps(dict(batch=res)))
     else:
         p = json.loads(sys.argv[3])
